@@ -164,6 +164,12 @@ structure AdaptBufSelfP where
   chunk : BufIterSelf
   deriving Repr
 
+/-- `BufferedIter<'a, T, ClonedBufferedChunk<..>>`: the chunk puller of an adaptor over the wrapper -/
+structure BufferedIterSelfPA where
+  buffered_iter : AdaptBufSelfP
+  atomic_iter : AdaptSelfP := {}
+  deriving Repr
+
 /-! ## `usize`, `Option`, `Vec` -/
 
 variable {ρ : Type}
